@@ -226,7 +226,27 @@ Theorem widened_kernel_rows :
     else map (fun _ => fill) (seq 0 (widened_len kw rw)).
 Proof. exact widened2_rows. Qed.
 
+(* ---- split_pad_to_sub_pad: one PAD as two ---- *)
+(* padding (lo2, hi2) first and lo1 afterwards is padding lo1 + lo2 in one go: every rank, extents, index; paddings >= 0 *)
+Theorem pad_twice_is_pad_once :
+  forall lo1 lo2 hi2 n x i,
+    Forall (fun v => 0 <= v) lo2 -> Forall (fun v => 0 <= v) hi2 ->
+    length lo1 = length n -> length lo2 = length n -> length hi2 = length n -> length i = length n ->
+    pad_nd lo1 (zadd (zadd n lo2) hi2) (pad_nd lo2 n x) i = pad_nd (zadd lo1 lo2) n x i.
+Proof. exact pad_twice_is_pad_once_lemma. Qed.
+
+(* the two paddings matrices of the split add up to the original, the kept one pads only the batch or only the
+   channels, the moved one does not pad that axis *)
+Theorem pad_split_sound :
+  forall m axis kept moved, pad_split m = Some (axis, kept, moved) ->
+    madd kept moved = m /\ (axis = 0%nat \/ axis = 3%nat) /\
+    nth axis moved (0, 0) = (0, 0) /\ (forall a, a <> axis -> nth a kept (0, 0) = (0, 0)) /\
+    nth axis kept (0, 0) = nth axis m (0, 0).
+Proof. exact pad_split_sound_lemma. Qed.
+
 Print Assumptions space_to_batch_conv_batch_to_space_is_dilation.
+Print Assumptions pad_twice_is_pad_once.
+Print Assumptions pad_split_sound.
 Print Assumptions widened_kernel_is_dilation.
 Print Assumptions dilation_split_exact.
 Print Assumptions widened_kernel_rows.
